@@ -5,7 +5,9 @@
    send, in order, lengths matching content, true addresses and ports, payload
    intact, sequence number as given, time stamp = send time in microseconds. *)
 From Coq Require Import List ZArith Lia Bool.
-From Sim Require Import Pcap PcapProofs.
+From RecordUpdate Require Import RecordSet.
+From Sim Require Import Map Variant Kernel Queue Net Pcap PcapProofs SimState Sim RxProofs CaptureProofs.
+Import RecordSetNotations.
 Import ListNotations.
 Local Open Scope Z_scope.
 
@@ -36,3 +38,36 @@ Example C19_wf_example : Forall wf [s1; s2].
 Proof. repeat constructor; simpl; unfold EPOCH; lia. Qed.
 Example C19_example_length : length (encode_file [s1; s2]) = (24 + (16 + 40 + 3) + (16 + 28 + 2))%nat.
 Proof. vm_compute. reflexivity. Qed.
+
+(* ---- integration: what the sockets hand to the capture (Proofs/CaptureProofs.v) ---- *)
+Theorem C19_every_tcp_transmission_logs_exactly_one_record :
+  forall cx s p w ci recs,
+  t_chan (get_tcp w s) = Some ci -> w_pcap w = Some recs ->
+  let t := get_tcp w s in
+  let c := get_chan w ci in
+  let idx := self_idx c (t_bound t) in
+  let n := Z.of_nat (length (p_buf p)) in
+  let rec := {| c_tcp := true; c_now := cnow cx; c_src := a_val (e_addr (t_bound t));
+                c_dst := a_val (e_addr (chan_ep c (remote_idx c (t_bound t))));
+                c_sport := e_port (p_from p); c_dport := e_port (chan_ep c (remote_idx c (t_bound t)));
+                c_seq := dir_counter c idx; c_payload := p_buf p |} in
+  exists p' w0,
+    tcp_send_packet cx s p w = cfwd cx p' w0 /\
+    w_pcap w0 = Some (rec :: recs) /\
+    dir_counter (get_chan w0 ci) idx = (dir_counter c idx + n) mod 4294967296 /\
+    core p' = core p /\ p_bytectr p' = dir_counter c idx.
+Proof. exact send_packet_logs_exactly_one_record. Qed.
+Print Assumptions C19_every_tcp_transmission_logs_exactly_one_record.
+
+Theorem C19_capture_off_records_nothing :
+  forall cx s p w ci, t_chan (get_tcp w s) = Some ci -> w_pcap w = None ->
+  exists p' w0, tcp_send_packet cx s p w = cfwd cx p' w0 /\ w_pcap w0 = None.
+Proof. exact send_packet_with_capture_off_records_nothing. Qed.
+Print Assumptions C19_capture_off_records_nothing.
+
+Theorem C19_sequence_numbers_start_at_zero :
+  forall cx s target w ci w' cs,
+  sim_internal_connect cx s target w = (EC_OK, Some ci, w', cs) ->
+  exists c w0 syn, (w', cs) = cfwd cx syn w0 /\ get_chan w0 ci = c /\ ch_bytes0 c = 0 /\ ch_bytes1 c = 0 /\ ci = w_next_chan w.
+Proof. exact new_connection_counts_from_zero. Qed.
+Print Assumptions C19_sequence_numbers_start_at_zero.
